@@ -29,6 +29,7 @@ import (
 	"github.com/ipld/go-ipld-prime/traversal/selector"
 
 	"verif/mc/core"
+	"verif/mc/props/c07"
 	"verif/mc/ref"
 	"verif/mc/trav"
 )
@@ -469,6 +470,10 @@ func selectorSpecs(quick bool) []ref.Val {
 	var out []ref.Val
 	// well-shaped selectors with each integer replaced by each extreme
 	for _, s := range trav.Enumerate(trav.QuickAlphabet(), 3) {
+		out = append(out, s.Spec())
+	}
+	// the targeted families of C07 (unions under recursion, uneven edge distances, nested recursion …)
+	for _, s := range c07.Families(quick) {
 		out = append(out, s.Spec())
 	}
 	for _, x := range extremeInts {
